@@ -1,7 +1,7 @@
 (* C10 — merge criteria obey their documented laws.
    Statements only; each is closed by [exact <lemma>].  [accept] is tied to the source of
    bblean/_merges.py by Proofs/GenTie.v (regenerated on every run). *)
-From BB Require Import Model.Merges Proofs.MergeFacts Proofs.GenTie Gen.GMerges Gen.GSim.
+From BB Require Import Model.Merges Proofs.MergeFacts Proofs.GenTieMerges Gen.GMerges Gen.GSim.
 Open Scope Z_scope.
 
 (* the model's [accept] IS the translated source of the six __call__ methods *)
